@@ -55,9 +55,9 @@ def po_update_fee(S):
     S.check("weight-in-[0,1]", 0 <= w and w <= 1)
     share = exact(liq) / cur
     S.check("fee0==weight*volume0*share*fee_rate",
-            S.eq(position.pending_amount0 - p0, w * exact(in0) / 10 ** S.shape["d0"] * share * pool.fee_rate))
+            S.eq(position.pending_amount0, p0 + w * exact(in0) / 10 ** S.shape["d0"] * share * pool.fee_rate))
     S.check("fee1==weight*volume1*share*fee_rate",
-            S.eq(position.pending_amount1 - p1, w * exact(in1) / 10 ** S.shape["d1"] * share * pool.fee_rate))
+            S.eq(position.pending_amount1, p1 + w * exact(in1) / 10 ** S.shape["d1"] * share * pool.fee_rate))
     S.check("fee-never-negative", position.pending_amount0 >= p0 and position.pending_amount1 >= p1)
     S.check("liquidity-untouched", position.liquidity == liq)
     lo_t = last if last < close else close
@@ -150,8 +150,8 @@ def po_update(S):
         p = m._positions[k]
         wt = path_weight(last, row["closeTick"], k.lower_tick, k.upper_tick)
         share = exact(before[i][2]) / row["currentLiquidity"]
-        S.check(f"pos{i}/fee0", S.eq(p.pending_amount0 - before[i][0], wt * exact(row["inAmount0"]) / 10 ** S.shape["d0"] * share * w.pool.fee_rate))
-        S.check(f"pos{i}/fee1", S.eq(p.pending_amount1 - before[i][1], wt * exact(row["inAmount1"]) / 10 ** S.shape["d1"] * share * w.pool.fee_rate))
+        S.check(f"pos{i}/fee0", S.eq(p.pending_amount0, before[i][0] + wt * exact(row["inAmount0"]) / 10 ** S.shape["d0"] * share * w.pool.fee_rate))
+        S.check(f"pos{i}/fee1", S.eq(p.pending_amount1, before[i][1] + wt * exact(row["inAmount1"]) / 10 ** S.shape["d1"] * share * w.pool.fee_rate))
         S.check(f"pos{i}/liquidity-untouched", p.liquidity == before[i][2])
     S.check("wallet-untouched", w.broker._assets[w.pool.token0].balance == wallet0)
     S.check("no-position-created-or-removed", len(m._positions) == len(w.pos_keys))
